@@ -380,6 +380,28 @@ async fn h_custom(rq: RequestContext<IdCtx>, q: Query<ModeQuery>) -> Result<Http
     }
 }
 
+/// handlers that put an x-request-id of their own on the response (a proxy copying upstream headers would)
+async fn h_own_raw(rq: RequestContext<IdCtx>, q: Query<ModeQuery>) -> Result<http::Response<dropshot::Body>, HttpError> {
+    rq.context().seen_by_handler.lock().unwrap().push(rq.request_id.clone());
+    let body = serde_json::to_vec(&json!({"seen_id": rq.request_id})).unwrap();
+    Ok(http::Response::builder()
+        .status(200)
+        .header("content-type", "application/json")
+        .header("x-request-id", format!("upstream-{}", q.into_inner().mode))
+        .body(dropshot::Body::from(body))
+        .unwrap())
+}
+async fn h_own_hdr(rq: RequestContext<IdCtx>, q: Query<ModeQuery>) -> Result<dropshot::HttpResponseHeaders<HttpResponseOk<serde_json::Value>>, HttpError> {
+    rq.context().seen_by_handler.lock().unwrap().push(rq.request_id.clone());
+    let mut r = dropshot::HttpResponseHeaders::new_unnamed(HttpResponseOk(json!({"seen_id": rq.request_id})));
+    r.headers_mut().insert("x-request-id", http::HeaderValue::from_str(&format!("upstream-{}", q.into_inner().mode)).unwrap());
+    Ok(r)
+}
+async fn h_own_err(rq: RequestContext<IdCtx>, q: Query<ModeQuery>) -> Result<HttpResponseOk<serde_json::Value>, HttpError> {
+    rq.context().seen_by_handler.lock().unwrap().push(rq.request_id.clone());
+    Err(HttpError::for_bad_request(None, format!("seen_id={}", rq.request_id)).with_header("x-request-id", format!("upstream-{}", q.into_inner().mode)).unwrap())
+}
+
 #[derive(Deserialize, JsonSchema)]
 struct SomeBody {
     #[allow(dead_code)]
@@ -408,6 +430,10 @@ enum Req {
     BadBody,
     GoodBody,
     BadPath,
+    /// the handler sets its own x-request-id: on a raw response, via explicit typed-response headers, on an error
+    OwnRaw(u16),
+    OwnHdr(u16),
+    OwnErr(u16),
 }
 
 fn req_strategy() -> impl Strategy<Value = Req> {
@@ -427,6 +453,9 @@ fn req_strategy() -> impl Strategy<Value = Req> {
         Just(Req::BadBody),
         Just(Req::GoodBody),
         Just(Req::BadPath),
+        any::<u16>().prop_map(Req::OwnRaw),
+        any::<u16>().prop_map(Req::OwnHdr),
+        any::<u16>().prop_map(Req::OwnErr),
     ]
 }
 
@@ -457,6 +486,9 @@ fn render(r: &Req) -> (Vec<u8>, bool) {
         Req::BadBody => (mk("PUT", "/body", Some(b"{\"a\": \"x\"}")), false),
         Req::GoodBody => (mk("PUT", "/body", Some(b"{\"a\": 7}")), false),
         Req::BadPath => (mk("GET", "/plain/%2e%2e/../x", None), false),
+        Req::OwnRaw(n) => (mk("GET", &format!("/ownraw?mode={}", n % 3), None), false),
+        Req::OwnHdr(n) => (mk("GET", &format!("/ownhdr?mode={}", n % 3), None), false),
+        Req::OwnErr(n) => (mk("GET", &format!("/ownerr?mode={}", n % 3), None), false),
     }
 }
 
@@ -488,8 +520,26 @@ fn check_seq(live: &LiveIds, rt: &tokio::runtime::Runtime, c: &SeqCase, st: &mut
             st.eval();
             st.count(&format!("req:{}", format!("{:?}", rq).split('(').next().unwrap()));
             let ids = resp.header_all("x-request-id");
-            ensure!(ids.len() == 1, "request-id-missing", "{:?}: {} x-request-id headers (status {})", rq, ids.len(), resp.status);
-            let id = String::from_utf8_lossy(ids[0]).to_string();
+            let own = matches!(rq, Req::OwnRaw(_) | Req::OwnHdr(_) | Req::OwnErr(_));
+            if own {
+                // The handler put an x-request-id of its own on the response.  The statement asks for *an*
+                // x-request-id header equal to the id the handler was given (and, for errors, for the
+                // attached headers to be sent as well), so a second line with the handler's value is not
+                // judged; the framework's own id must be there and is the one examined below.
+                st.count("handler_set_its_own_request_id");
+                ensure!(!ids.is_empty(), "request-id-missing", "{:?}: no x-request-id header (status {})", rq, resp.status);
+                ensure!(
+                    ids.iter().any(|v| !v.starts_with(b"upstream-")),
+                    "request-id-replaced-by-handler-value",
+                    "{:?}: the only x-request-id values are the handler's own {:?}; the id of this request is not on the response (status {})",
+                    rq,
+                    ids.iter().map(|v| String::from_utf8_lossy(v).to_string()).collect::<Vec<_>>(),
+                    resp.status
+                );
+            } else {
+                ensure!(ids.len() == 1, "request-id-missing", "{:?}: {} x-request-id headers (status {})", rq, ids.len(), resp.status);
+            }
+            let id = String::from_utf8_lossy(ids.iter().find(|v| !v.starts_with(b"upstream-")).unwrap_or(&ids[0])).to_string();
             ensure!(!id.is_empty(), "request-id-empty", "{:?}: empty request id", rq);
             let fresh = live.all_ids.lock().unwrap().insert(id.clone());
             ensure!(fresh, "request-id-reused", "{:?}: request id {} was already used by an earlier response", rq, id);
@@ -498,7 +548,7 @@ fn check_seq(live: &LiveIds, rt: &tokio::runtime::Runtime, c: &SeqCase, st: &mut
             ensure!(!text.contains("INTERNAL-SECRET"), "internal-leak-live", "{:?}: internal text in body: {}", rq, text);
             let expect_handler = matches!(
                 rq,
-                Req::Ok | Req::Internal | Req::Unavail | Req::HandlerNotFound | Req::Client(_) | Req::WithHeader | Req::CustomOk | Req::CustomErr(_) | Req::GoodBody
+                Req::Ok | Req::Internal | Req::Unavail | Req::HandlerNotFound | Req::Client(_) | Req::WithHeader | Req::CustomOk | Req::CustomErr(_) | Req::GoodBody | Req::OwnRaw(_) | Req::OwnHdr(_) | Req::OwnErr(_)
             );
             if !head {
                 let j = resp.json();
@@ -510,18 +560,18 @@ fn check_seq(live: &LiveIds, rt: &tokio::runtime::Runtime, c: &SeqCase, st: &mut
                 }
                 // the id the handler saw
                 let seen: Option<String> = match rq {
-                    Req::Ok | Req::CustomOk | Req::GoodBody => j.as_ref().and_then(|j| j["seen_id"].as_str().map(|s| s.to_string())),
-                    Req::Client(_) | Req::WithHeader => j.as_ref().and_then(|j| j["message"].as_str().and_then(|m| m.strip_prefix("seen_id=").map(|s| s.to_string()))),
+                    Req::Ok | Req::CustomOk | Req::GoodBody | Req::OwnRaw(_) | Req::OwnHdr(_) => j.as_ref().and_then(|j| j["seen_id"].as_str().map(|s| s.to_string())),
+                    Req::Client(_) | Req::WithHeader | Req::OwnErr(_) => j.as_ref().and_then(|j| j["message"].as_str().and_then(|m| m.strip_prefix("seen_id=").map(|s| s.to_string()))),
                     Req::CustomErr(_) => j.as_ref().and_then(|j| j["custom_message"].as_str().and_then(|m| m.strip_prefix("seen_id=").map(|s| s.to_string()))),
                     _ => None,
                 };
-                if matches!(rq, Req::Ok | Req::CustomOk | Req::GoodBody | Req::Client(_) | Req::WithHeader | Req::CustomErr(_)) {
+                if matches!(rq, Req::Ok | Req::CustomOk | Req::GoodBody | Req::Client(_) | Req::WithHeader | Req::CustomErr(_) | Req::OwnRaw(_) | Req::OwnHdr(_) | Req::OwnErr(_)) {
                     ensure!(seen.as_deref() == Some(id.as_str()), "handler-id-mismatch", "{:?}: handler saw {:?}, header says {} (status {}, body {})", rq, seen, id, resp.status, text);
                 }
             }
             // status expectations (coarse: class only; exact codes are other properties' business)
             let want: std::ops::Range<u16> = match rq {
-                Req::Ok | Req::CustomOk | Req::GoodBody => 200..201,
+                Req::Ok | Req::CustomOk | Req::GoodBody | Req::OwnRaw(_) | Req::OwnHdr(_) => 200..201,
                 Req::Internal => 500..501,
                 Req::Unavail => 503..504,
                 Req::HandlerNotFound | Req::Route404 => 404..405,
@@ -624,6 +674,9 @@ pub fn run(ctx: &mut Ctx) {
         api.register(ApiEndpoint::new("plain".into(), h_plain, http::Method::GET, "application/json", "/plain", ApiEndpointVersions::All)).unwrap();
         api.register(ApiEndpoint::new("custom".into(), h_custom, http::Method::GET, "application/json", "/custom", ApiEndpointVersions::All)).unwrap();
         api.register(ApiEndpoint::new("body".into(), h_body, http::Method::PUT, "application/json", "/body", ApiEndpointVersions::All)).unwrap();
+        api.register(ApiEndpoint::new("ownraw".into(), h_own_raw, http::Method::GET, "application/json", "/ownraw", ApiEndpointVersions::All)).unwrap();
+        api.register(ApiEndpoint::new("ownhdr".into(), h_own_hdr, http::Method::GET, "application/json", "/ownhdr", ApiEndpointVersions::All)).unwrap();
+        api.register(ApiEndpoint::new("ownerr".into(), h_own_err, http::Method::GET, "application/json", "/ownerr", ApiEndpointVersions::All)).unwrap();
         let server = start_server(api, IdCtx::default(), Default::default(), None).expect("server");
         LiveIds { addr: server.local_addr(), server, all_ids: Mutex::new(HashSet::new()) }
     };
